@@ -46,7 +46,7 @@ func (ftp *Fs) Stat(path string) (os.FileInfo, error) {
 
 func (ftp *Fs) ChangeDir(path string) error {
 
-	return ftp.ChangeDir(path)
+	return ftp.Htfs.ChangeDir(path)
 }
 
 func (ftp *Fs) ListDir(path string) []os.FileInfo {
